@@ -325,6 +325,28 @@ def _worker(i):
     return run_case(i)
 
 
+def run_aligned(k):
+    """A stream whose size is an exact multiple of a block size (512 B .. 1 MiB),
+    written directly or relocated from OVNI_TMPDIR."""
+    chk, drv = _CTX["chk"], _CTX["drv"]
+    rng = chk.rng(k, "aligned")
+    mult = [512, 1024, 4096, 65536, 1 << 20][k % 5]
+    ops, sh = gen_soup(rng, rng.choice([20, 200, 1500]), big=1)
+    script = make_script([(1000 + k % 50, ops)])
+    al = rt.align_script(drv, script, mult, chk.scratch, before="\0")
+    if al is None:
+        return {"i": k, "kind": "aligned", "viol": None, "inconclusive": "could not measure the stream to align it",
+                "events": 0, "markers": 0, "bytes": 0, "feat": set(), "shortwrites": 0, "aborted_on_fault": 0}
+    info = {"case": k, "kind": "aligned", "script": al[0], "tmpdir": rng.random() < 0.6, "autoflush_expected": None,
+            "nostdin": False}
+    out = run_case(200000 + k, info=info)
+    out["i"] = k
+    if out["viol"] is None and not out["inconclusive"] and out["bytes"] % mult:
+        out["inconclusive"] = "stream of %d bytes is not a multiple of %d" % (out["bytes"], mult)
+    out["aligned_script"] = al[0] if out["viol"] else None
+    return out
+
+
 def run_multiproc(k):
     """Several processes (as MPI ranks on one or more nodes do) write into the
     same trace directory at the same time: same pid on different looms, or
@@ -448,6 +470,19 @@ def main(argv):
             if out["viol"]:
                 key, what, obsv = out["viol"]
                 chk.report(key, what, {"multiproc": out["i"], "layout": out["layout"], "observation": obsv})
+    if not chk.replay:
+        for out in core.pmap(run_aligned, list(range(10 if chk.tier == "quick" else 200))):
+            if out["inconclusive"]:
+                chk.note_inconclusive(out["inconclusive"]); continue
+            evaluated += 1
+            kinds[out["kind"]] = kinds.get(out["kind"], 0) + 1
+            for k in tot:
+                tot[k] += out[k]
+            feats |= out["feat"]
+            if out["viol"]:
+                key, what, obsv = out["viol"]
+                chk.report(key + ":aligned", what, {"aligned": out["i"], "script_head": out["aligned_script"][:2000],
+                                                    "observation": obsv})
     for i in cases[:200]:
         info = gen_case(chk, i)
         if info["kind"] == "boundary":
@@ -459,7 +494,7 @@ def main(argv):
         "distinct_nontrivial": len(feats) + len(deltas_seen),
         "rule": "op scripts (boundary sweep / op soup / dense autoflush / multi-thread / short-write / EINTR / no stdin; 2-3 "
                 "processes writing into one trace directory at once with equal pids on different looms or equal tids in "
-                "different processes) run on the "
+                "different processes; streams padded to an exact multiple of 512 B .. 1 MiB) run on the "
                 "ASan+UBSan libovni; a case counts when the driver finished and every stream was decoded and compared "
                 "with the emit log. distinct_nontrivial = distinct (normal|jumbo, payload size) classes seen in decoded "
                 "streams + flush-marker class + distinct boundary distances delta (MAX - fill level) generated",
